@@ -80,10 +80,66 @@ def all_eq_methods(model):
     return out
 
 
+_HELPERS = {}      # (model id, class qualname) -> {method name: FuncInfo}, set by unguarded_uses
+
+
+def _helper_implies_guard(h, argi, depth=0):
+    """Does helper method h return a truthy value only when its parameter
+    number argi passed an isinstance/hasattr guard?  (Every `return` that is
+    not a literal False/None/0 must be in guarded context.)"""
+    if depth > 2 or argi >= len(h.params):
+        return False
+    p = h.params[argi]
+    ok = [True]
+    seen_return = [False]
+
+    def falsy(e):
+        return e is None or (isinstance(e, ast.Constant) and not e.value)
+
+    def block(stmts, guarded):
+        for st in stmts:
+            if isinstance(st, ast.Return):
+                seen_return[0] = True
+                if not falsy(st.value) and not guarded:
+                    # `return guard(p) and ...` is fine as well
+                    if not (isinstance(st.value, ast.BoolOp) and isinstance(st.value.op, ast.And)
+                            and _guard_facts(st.value.values[0], p, True)):
+                        ok[0] = False
+            elif isinstance(st, ast.If):
+                gpos = guarded or bool(_guard_facts(st.test, p, True))
+                gneg = guarded or bool(_guard_facts(st.test, p, False))
+                block(st.body, gpos)
+                block(st.orelse, gneg)
+                if st.body and isinstance(st.body[-1], (ast.Return, ast.Raise)) and not st.orelse:
+                    guarded = gneg
+                elif st.orelse and isinstance(st.orelse[-1], (ast.Return, ast.Raise)):
+                    guarded = gpos
+            elif isinstance(st, (ast.For, ast.While, ast.With)):
+                block(st.body, guarded)
+                block(getattr(st, "orelse", []), guarded)
+            elif isinstance(st, ast.Try):
+                block(st.body, guarded)
+                for hh in st.handlers:
+                    block(hh.body, guarded)
+                block(st.orelse, guarded)
+                block(st.finalbody, guarded)
+    block(body_without_docstring(h.node), False)
+    return ok[0] and seen_return[0]
+
+
 def _guard_facts(test, other, positive=True):
     """Does `test` being true (positive) / false imply a type/attr guard on
     `other`?  Returns set of guard descriptions."""
     out = set()
+    # self.helper(other) where the helper answers truthy only under a guard
+    if isinstance(test, ast.Call) and isinstance(test.func, ast.Attribute) \
+            and isinstance(test.func.value, ast.Name) and positive:
+        h = _HELPERS.get(test.func.attr)
+        if h is not None:
+            for i, a in enumerate(test.args):
+                if isinstance(a, ast.Name) and a.id == other and \
+                        _helper_implies_guard(h, i + 1):
+                    out.add(dump(test))
     if isinstance(test, ast.Call) and isinstance(test.func, ast.Name) \
             and test.func.id in ("isinstance", "hasattr") and test.args \
             and isinstance(test.args[0], ast.Name) and test.args[0].id == other:
@@ -107,10 +163,16 @@ def _guard_facts(test, other, positive=True):
     return out
 
 
-def unguarded_uses(f, other):
+def unguarded_uses(f, other, model=None, _depth=0):
     """Attribute accesses / subscripts / iteration / len() on `other` that are
     not dominated by an isinstance/hasattr guard."""
     bad = []
+    _HELPERS.clear()
+    if model is not None and f.cls is not None:
+        for c in model.mro(f.cls):
+            if isinstance(c, ClassInfo):
+                for k, v in c.methods.items():
+                    _HELPERS.setdefault(k, v)
 
     def uses_in_expr(e, guarded):
         # short-circuit aware walk
@@ -200,6 +262,19 @@ def unguarded_uses(f, other):
                     if isinstance(c, ast.expr):
                         uses_in_expr(c, guarded)
     block(body_without_docstring(f.node), False)
+    # helpers that receive the other operand must treat it with the same care
+    if model is not None and _depth < 2:
+        helpers = dict(_HELPERS)
+        for c in ast.walk(f.node):
+            if isinstance(c, ast.Call) and isinstance(c.func, ast.Attribute) \
+                    and isinstance(c.func.value, ast.Name) and c.func.value.id == f.params[0] \
+                    and c.func.attr in helpers and helpers[c.func.attr] is not f:
+                h = helpers[c.func.attr]
+                for i, a in enumerate(c.args):
+                    if isinstance(a, ast.Name) and a.id == other and i + 1 < len(h.params):
+                        bad += unguarded_uses(h, h.params[i + 1], model, _depth + 1)
+        _HELPERS.clear()
+        _HELPERS.update(helpers)
     return bad
 
 
@@ -211,7 +286,7 @@ def _eq_total(ctx):
         if len(f.params) != 2:
             raise AnalysisError(f"{f.qualname}: unexpected signature")
         other = f.params[1]
-        bad = unguarded_uses(f, other)
+        bad = unguarded_uses(f, other, ctx.model)
         ctx.check(not bad, "C20/EQ-TOTAL", f.qualname,
                   f"`{dump(bad[0]) if bad else ''}` touches the other operand "
                   f"without an isinstance/hasattr guard: comparing with an "
